@@ -10,6 +10,9 @@ result is compared with reference values computed from the case description (exa
 Space `history`: the same line oracle after every sequence of up to 3 loads of match files of every
 version (`load_matchfile` / `load_match`), each case in a forked child of the worker; after every
 `load_matchfile` the loaded lines are compared with the lines written into the file.
+
+Space `parse-pos`: the text of a line embedded in a longer string and parsed with the `pos` option of the
+class parsers (every class that has it) gives the same object as the text alone.
 """
 import contextlib
 import copy
@@ -39,7 +42,8 @@ RULE = (
     "with the remaining fields cycled; free text of info lines = all token sequences up to a length over "
     "the characters that structure a line; every case is distinct by construction; non-trivial = the "
     "line was written and parsed back (all cases); a history case = a sequence of file loads followed by the "
-    "line oracle on the lines of one version (non-trivial: always)"
+    "line oracle on the lines of one version (non-trivial: always); a parse-pos case = one line x what stands before "
+    "and after it in the parsed string (non-trivial: always - either pos > 0 or text follows the line)"
 )
 ASSUMPTIONS = [
     "field values are given in the canonical types of the line classes (upper-case step, int or None "
@@ -62,6 +66,10 @@ ASSUMPTIONS = [
     "lists and field tables are shared module state); a file whose lines are distinct, of one version, start with "
     "the version line and have unique anchors/ids is read line by line with the dispatcher of its version, so "
     "load_matchfile returns one object of the same kind and text per line; a file without version line is 0.1.0",
+    "parsing the text of a line includes the documented `pos` option of the class parsers ('Position of the matchline in "
+    "the input string'): the text embedded in a longer string (other lines, comments or white space before it; a line "
+    "ending or further lines after a line break behind it) and parsed with pos = its position gives the same object as the "
+    "text alone; what may follow the line on the same physical line is not specified and not generated",
     "trusted: Python re/str/float formatting, decimal, fractions, numpy integer arithmetic",
 ]
 CHUNK = 50
@@ -1075,10 +1083,147 @@ def eval_history(case, res):
     return "len%d-%s" % (len(done), "".join(sorted(set(marks))) or "-")
 
 
+# ------------------------------------------------------------------------------------------------
+# the `pos` option of the class parsers: the line is part of a longer string
+#
+# The parsers of the line classes that are not composed of other lines take the position of the line in the
+# input string (`from_matchline(matchline, pos=..., version=...)`; "Position of the matchline in the input
+# string").  A case embeds the written text of a line in a buffer (something before it, something after it)
+# and parses the buffer with pos = length of what stands before the line: the result is the line.
+
+# kinds whose class parser documents `pos` (the composite lines - pairs, deletions, insertions, ornaments,
+# stime-ptime - do not have the option)
+POS_KINDS_V0 = ("info", "meta", "snote", "note", "sustain", "soft")
+POS_KINDS_V1 = ("info", "scoreprop", "section", "snote", "note", "stime", "ptime", "sustain", "soft")
+OTHER = None  # stands for the text of the other line of the case
+POS_PREFIXES = {
+    "none": [],                          # pos=0 (the default), something follows the line
+    "space": [" "],
+    "indent": ["\t  "],
+    "comment": ["% comment\n"],
+    "newline": ["\n"],
+    "line": [OTHER, "\n"],               # second line of a buffer
+    "adjacent": [OTHER],                 # directly behind another line
+    "two-lines": [OTHER, "\n", OTHER, "\n"],  # third line: pos is larger than the rest of the buffer
+}
+POS_SUFFIXES = {
+    "none": [],
+    "newline": ["\n"],
+    "crlf": ["\r\n"],
+    "line": ["\n", OTHER, "\n"],         # another line follows
+}
+NBLOCKS_POS = 32
+
+
+def pos_kinds(v):
+    return POS_KINDS_V1 if is_v1(v) else POS_KINDS_V0
+
+
+def diagonal(fields, fixed):
+    """every value of every field at least once: the j-th case takes the j-th value (cyclic) of every field"""
+    n = max(len(vals) for _, vals in fields)
+    for j in range(n):
+        a = nest(dict((name, vals[j % len(vals)]) for name, vals in fields))
+        if fixed:
+            a.update(fixed)
+        yield a
+
+
+def pos_lines(tier_x, pairs):
+    """(line, other line) of every family whose class parser has the option: the diagonal of the family's
+    alphabets (pairs=False) or the enumeration of the line spaces (pairs=True: full product when small, else
+    all pairs of fields); the other line is the preceding line of the same family (cyclic)"""
+    for name, kind, v, fields, fixed in family_specs(tier_x):
+        if kind not in pos_kinds(v):
+            continue
+        if pairs:
+            lines = list(gen(kind, v, fields, QUICK_LIMIT, fixed))
+        else:
+            lines = [dict(k=kind, v=v, a=a) for a in diagonal(fields, fixed)]
+        for i, ln in enumerate(lines):
+            yield ln, lines[i - 1]
+
+
+POS_COMBOS = [(pre, suf) for pre in POS_PREFIXES for suf in POS_SUFFIXES if (pre, suf) != ("none", "none")]
+# ("none", "none") is the plain parse of the line spaces
+
+
+def pos_case(ln, other, pre, suf):
+    return dict(k="pos", v=ln["v"], a=dict(line=ln, other=other, pre=pre, suf=suf))
+
+
+def pos_cases(tier_x, pairs):
+    for ln, other in pos_lines(tier_x, pairs):
+        for pre, suf in POS_COMBOS:
+            yield pos_case(ln, other, pre, suf)
+
+
+def pos_scope_rest(block=0, nblocks=1):
+    """the thorough scope without the quick core: the lines of the enumeration of the line spaces over the
+    extended alphabets that are not on the diagonal of the core alphabets, x every prefix/suffix combination;
+    (block, nblocks) = every nblocks-th case of this enumeration starting with case number `block`"""
+    core = set(repr(ln) for ln, _ in pos_lines(False, False))
+    n = 0
+    for ln, other in pos_lines(True, True):
+        if repr(ln) in core:
+            continue
+        for pre, suf in POS_COMBOS:
+            if n % nblocks == block:
+                yield pos_case(ln, other, pre, suf)
+            n += 1
+
+
+def parse_at(line, buffer, pos):
+    return line_class(line["k"], line["v"]).from_matchline(buffer, pos=pos, version=ver(line["v"]))
+
+
+def eval_pos(case, res):
+    a = case["a"]
+    line, other = a["line"], a["other"]
+    ctx = "%s %s in a buffer (before: %s, after: %s)" % (line["k"], line["v"], a["pre"], a["suf"])
+    vws = views(line)
+    ok, x = call(res, "construct", ctx, build, line)
+    if not ok:
+        return "construct-exc"
+    ok, t = call(res, "write", ctx, matchline_of, x)
+    if not ok:
+        return "write-exc"
+    ok, o = call(res, "construct", ctx, build, other)
+    if not ok:
+        return "construct-exc"
+    ok, to = call(res, "write", ctx, matchline_of, o)
+    if not ok:
+        return "write-exc"
+    if not isinstance(t, str) or not isinstance(to, str) or not t or "\n" in t or "\n" in to:
+        res.fail("write", expected="one line of text", observed=repr((t, to)), where="MatchLine.matchline", detail=ctx)
+        return "write-bad"
+    prefix = "".join(to if p is OTHER else p for p in POS_PREFIXES[a["pre"]])
+    suffix = "".join(to if p is OTHER else p for p in POS_SUFFIXES[a["suf"]])
+    buffer = prefix + t + suffix
+    pos = len(prefix)
+    ctx = "%s buffer=%r pos=%d" % (ctx, buffer, pos)
+    ok, y = call(res, "parse-pos", ctx, parse_at, line, buffer, pos)
+    if not ok:
+        return "parse-exc"
+    if type(y) is not type(x):
+        res.fail("parse-pos-same-kind", expected=type(x).__name__, observed=type(y).__name__, where="from_matchline", detail=ctx)
+        return "parse-kind"
+    compare_fields(res, "parse-pos-equal-fields", y, vws, ctx, "from_matchline")
+    same_objects(res, "parse-pos-equal-fields", x, y, vws, ctx, "from_matchline")
+    ok, t2 = call(res, "rewrite", ctx, matchline_of, y)
+    if ok and t2 != t:
+        res.fail("rewrite-fixpoint", expected=t, observed=t2, where="MatchLine.matchline", detail=ctx)
+    if res.violations:
+        return "violation"
+    return "ok-pos0" if pos == 0 else ("ok-line-before" if OTHER in POS_PREFIXES[a["pre"]] else "ok-text-before")
+
+
 def eval_case(case):
     res = CaseResult(states=1, transitions=0, traces=1)
     k = case["k"]
-    if k == "fsd":
+    if k == "pos":
+        out = eval_pos(case, res)
+    elif k == "fsd":
         out = eval_fsd(case, res)
     elif k == "keysig":
         out = eval_key(case, res)
@@ -1544,6 +1689,17 @@ BOUNDS = {
                "that set a MIDI clock of 0), anchors and note ids renumbered to be unique; after every load_matchfile the loaded "
                "lines are compared with the written lines (kind and text, order not compared); the result of load_match is not "
                "compared",
+    "parse-pos": "the `pos` option of the class parsers (line embedded in a longer string): every line class whose "
+                 "from_matchline takes the position of the line (0.x: info, meta, snote, note, sustain, soft; 1.0.0: info, "
+                 "scoreprop, section, snote, note, stime, ptime, sustain, soft; the composite lines have no such option), all "
+                 "versions; buffer = prefix + text of the line + suffix parsed with pos=len(prefix); prefix in {nothing, one "
+                 "space, tab and spaces, a comment line, an empty line, another line of the same class and a line break, "
+                 "another line directly before, two other lines}; suffix in {nothing, LF, CR LF, LF + another line + LF}; all "
+                 "31 combinations except the plain parse; the other line = the preceding line of the same (kind, version, "
+                 "attribute) family (cyclic); expected: the object of the line (kind, fields against the reference and == the "
+                 "written object, same text again). Lines: core = of every family the diagonal of its alphabets (every value "
+                 "of every field at least once); thorough scope = of every family the enumeration of the line spaces (full "
+                 "product when <= 1500 cases, else all pairs of fields) over the extended alphabets",
 }
 
 
@@ -1592,6 +1748,15 @@ def spaces(tier, seed):
         rest = (c for c in history_scope() if not history_in_core(c))
         return itertools.chain(history_cases((0, 1, 2), LOADERS[:1]),
                                A.shard(rest, seed % NBLOCKS_HISTORY, NBLOCKS_HISTORY))
+
+    def position_cases():
+        if thorough:
+            return itertools.chain(pos_cases(False, False), pos_scope_rest())
+        return itertools.chain(pos_cases(False, False), pos_scope_rest(seed % NBLOCKS_POS, NBLOCKS_POS))
+
+    out.append(Space("parse-pos", position_cases, exhaustive=True, bounds=BOUNDS["parse-pos"] + (
+        " - complete" if thorough else " - complete core; plus every %d-th case (offset VERIF_SEED mod %d) of the rest of the "
+        "thorough enumeration" % (NBLOCKS_POS, NBLOCKS_POS))))
 
     out.append(Space("history", hist_cases, exhaustive=True, bounds=BOUNDS["history"] + (
         " - complete" if thorough else " - complete core: 0-2 loads with load_matchfile; plus every %d-th case (offset VERIF_SEED "
